@@ -66,13 +66,15 @@ theorem upd_other {α : Type} (f : Nat → α) (k j : Nat) (v : α) (h : j ≠ k
 
 /-! ### the admissible facts -/
 
-/-- field orders in which the script constants are dropped before the JIT module -/
+/-- field orders in which the script constants AND the keep-alive collection of registered functions are
+    dropped before the JIT module: a script constant's drop function is code of the module, and so is the drop
+    glue of script-built values (lists) that the state of a registered closure may have kept — when the module
+    holds the last `Arc` of such a closure, its state is released by the drop of `_registered_fns` -/
 def goodOrders : List (List Field) :=
-  [ [.constants, .rotoConstants, .registeredFns, .jit], [.constants, .rotoConstants, .jit, .registeredFns],
+  [ [.constants, .rotoConstants, .registeredFns, .jit],
     [.constants, .registeredFns, .rotoConstants, .jit], [.rotoConstants, .constants, .registeredFns, .jit],
-    [.rotoConstants, .constants, .jit, .registeredFns], [.rotoConstants, .registeredFns, .constants, .jit],
-    [.rotoConstants, .registeredFns, .jit, .constants], [.rotoConstants, .jit, .constants, .registeredFns],
-    [.rotoConstants, .jit, .registeredFns, .constants], [.registeredFns, .constants, .rotoConstants, .jit],
+    [.rotoConstants, .registeredFns, .constants, .jit],
+    [.rotoConstants, .registeredFns, .jit, .constants], [.registeredFns, .constants, .rotoConstants, .jit],
     [.registeredFns, .rotoConstants, .constants, .jit], [.registeredFns, .rotoConstants, .jit, .constants] ]
 
 /-- the fields whose drop does something the model tracks -/
@@ -373,7 +375,7 @@ theorem dropModule_spec {F : Facts} (hG : Good F) (k : Nat) (s : St) (hm : s.map
   rw [dropFields_core]
   simp only [goodOrders, List.mem_cons, List.not_mem_nil, or_false] at hord
   cases hkc : (s.info k).keepConst <;> cases hkf : (s.info k).keepClos <;>
-  rcases hord with h | h | h | h | h | h | h | h | h | h | h | h <;> rw [h] <;>
+  rcases hord with h | h | h | h | h | h | h | h <;> rw [h] <;>
   constructor <;>
   simp [St.relCount, dropFields, dropField, dropRotoConstants_eq hG, hw, hkc, hkf, hm, freeCode_mapped, freeCode_faults, freeCode_count,
     dropScriptConsts_faults, Nat.add_comm, Nat.add_left_comm, Nat.add_assoc]
